@@ -38,7 +38,8 @@ APPS = {
     "filterfalse": (lambda it: A.filterfalse(_pred, it), lambda it: itertools.filterfalse(_pred, it)),
     "chain": (lambda it: A.chain(it), lambda it: itertools.chain(it)),
     "chain2": (lambda it: A.chain([1], it), lambda it: itertools.chain([1], it)),
-    "compress": (lambda it: A.compress(it, [1, 0, 1]), lambda it: itertools.compress(it, [1, 0, 1])),
+    "compress": (lambda it: A.compress(it, [1, 0]), lambda it: itertools.compress(it, [1, 0])),
+    "compress_sel": (lambda it: A.compress([1, 2, 3, 4], it), lambda it: itertools.compress([1, 2, 3, 4], it)),
     "accumulate": (lambda it: A.accumulate(it, _t("a"), initial=_INIT), lambda it: itertools.accumulate(it, _t("a"), initial=_INIT)),
     "zip_longest": (lambda it: A.zip_longest(it, [1]), lambda it: itertools.zip_longest(it, [1])),
     "merge1": (lambda it: A.merge(it), lambda it: heapq.merge(it)),
